@@ -6,6 +6,8 @@ import (
 	"math"
 	"reflect"
 	"strings"
+	"sync"
+	"sync/atomic"
 	"unicode/utf16"
 	"unicode/utf8"
 
@@ -25,21 +27,28 @@ type importedString struct {
 	s string
 	u unicodeString
 
-	scanned bool
+	// scanned is set to 1 (atomically, after u has been written) once the string has been scanned.
+	// The string can be shared between runtimes running on different goroutines.
+	scanned  uint32
+	scanOnce sync.Once
+}
+
+func (i *importedString) isScanned() bool {
+	return atomic.LoadUint32(&i.scanned) != 0
 }
 
 func (i *importedString) scan() {
 	verifPoint("scan:begin", i)
 	i.u = unistring.Scan(i.s)
 	verifPoint("scan:mid", i)
-	i.scanned = true
+	atomic.StoreUint32(&i.scanned, 1)
 	verifPoint("scan:end", i)
 }
 
 func (i *importedString) ensureScanned() {
 	verifPoint("ensure", i)
-	if !i.scanned {
-		i.scan()
+	if !i.isScanned() {
+		i.scanOnce.Do(i.scan)
 	}
 }
 
@@ -113,7 +122,7 @@ func (i *importedString) Equals(other Value) bool {
 func (i *importedString) StrictEquals(other Value) bool {
 	switch otherStr := other.(type) {
 	case asciiString:
-		if i.u != nil {
+		if i.isScanned() && i.u != nil {
 			return false
 		}
 		return i.s == string(otherStr)
@@ -169,9 +178,9 @@ func (i *importedString) Length() int {
 }
 
 func (i *importedString) Concat(v String) String {
-	if !i.scanned {
+	if !i.isScanned() {
 		if v, ok := v.(*importedString); ok {
-			if !v.scanned {
+			if !v.isScanned() {
 				return &importedString{s: i.s + v.s}
 			}
 		}
@@ -200,7 +209,7 @@ func (i *importedString) CompareTo(v String) int {
 }
 
 func (i *importedString) Reader() io.RuneReader {
-	if i.scanned {
+	if i.isScanned() {
 		if i.u != nil {
 			return i.u.Reader()
 		}
@@ -246,7 +255,7 @@ func (s *stringUtf16Reader) ReadRune() (r rune, size int, err error) {
 }
 
 func (i *importedString) utf16Reader() utf16Reader {
-	if i.scanned {
+	if i.isScanned() {
 		if i.u != nil {
 			return i.u.utf16Reader()
 		}
@@ -258,7 +267,7 @@ func (i *importedString) utf16Reader() utf16Reader {
 }
 
 func (i *importedString) utf16RuneReader() io.RuneReader {
-	if i.scanned {
+	if i.isScanned() {
 		if i.u != nil {
 			return i.u.utf16RuneReader()
 		}
